@@ -166,4 +166,128 @@ mod kani_hooks_c18 {
     mk18txt!(Latitude, -90.0, 90.0, c18_tx_latitude);
     mk18txt!(Longitude, -180.0, 180.0, c18_tx_longitude);
     mk18txt!(Elevation, -420.0, 8848.0, c18_tx_elevation);
+
+    // ---- text route with a SYMBOLIC string (printable ASCII, <= 8 bytes); std's parser is modelled by its grammar:
+    // Ok(arbitrary f64) for strings in the decimal/exponent/inf/nan grammar, Err otherwise.
+    fn lower(c: u8) -> u8 {
+        if c >= b'A' && c <= b'Z' { c + 32 } else { c }
+    }
+    fn is_digit(c: u8) -> bool {
+        c >= b'0' && c <= b'9'
+    }
+    fn in_grammar(b: &[u8]) -> bool {
+        let n = b.len();
+        let mut i = 0;
+        if i < n && (b[i] == b'+' || b[i] == b'-') {
+            i += 1;
+        }
+        if n - i == 3 {
+            let (x, y, z) = (lower(b[i]), lower(b[i + 1]), lower(b[i + 2]));
+            if (x == b'i' && y == b'n' && z == b'f') || (x == b'n' && y == b'a' && z == b'n') {
+                return true;
+            }
+        }
+        if n - i == 8 {
+            let w = [b'i', b'n', b'f', b'i', b'n', b'i', b't', b'y'];
+            let mut k = 0;
+            let mut all = true;
+            while k < 8 {
+                if lower(b[i + k]) != w[k] {
+                    all = false;
+                }
+                k += 1;
+            }
+            if all {
+                return true;
+            }
+        }
+        let mut digits = 0;
+        while i < n && is_digit(b[i]) {
+            i += 1;
+            digits += 1;
+        }
+        if i < n && b[i] == b'.' {
+            i += 1;
+            while i < n && is_digit(b[i]) {
+                i += 1;
+                digits += 1;
+            }
+        }
+        if digits == 0 {
+            return false;
+        }
+        if i < n && (b[i] == b'e' || b[i] == b'E') {
+            i += 1;
+            if i < n && (b[i] == b'+' || b[i] == b'-') {
+                i += 1;
+            }
+            let mut ed = 0;
+            while i < n && is_digit(b[i]) {
+                i += 1;
+                ed += 1;
+            }
+            if ed == 0 {
+                return false;
+            }
+        }
+        i == n
+    }
+    pub static mut PARSER_CALLS: u32 = 0;
+    fn stub_f64_from_str_grammar(s: &str) -> Result<f64, std::num::ParseFloatError> {
+        unsafe { PARSER_CALLS += 1; }
+        if in_grammar(s.as_bytes()) {
+            let x: f64 = kani::any();
+            unsafe { LAST_PARSED = Some(x); }
+            Ok(x)
+        } else {
+            unsafe { LAST_PARSED = None; }
+            Err(unsafe { std::mem::transmute::<u8, std::num::ParseFloatError>(1) })
+        }
+    }
+
+    macro_rules! mk18sym {
+        ($ty:ty, $lo:expr, $hi:expr, $name:ident) => {
+            #[kani::proof]
+            #[kani::unwind(11)]
+            #[kani::stub(<f64 as std::str::FromStr>::from_str, stub_f64_from_str_grammar)]
+            #[kani::stub(std::fmt::write, stub_fmt_write)]
+            fn $name() {
+                let bytes: [u8; 8] = kani::any();
+                let len: usize = kani::any();
+                kani::assume(len <= 8);
+                let mut k = 0;
+                while k < 8 {
+                    kani::assume(bytes[k] >= 0x20 && bytes[k] < 0x7f);
+                    k += 1;
+                }
+                let s = unsafe { std::str::from_utf8_unchecked(&bytes[..len]) };
+                let wellformed = in_grammar(&bytes[..len]);
+                let r = <$ty as std::str::FromStr>::from_str(s);
+                let parsed = unsafe { LAST_PARSED };
+                match r {
+                    Ok(v) => {
+                        assert!(wellformed, "malformed text accepted");
+                        let x = parsed.unwrap();
+                        assert!(x >= $lo && x <= $hi, "text accepted out of range");
+                        assert!(f64::from(v).to_bits() == x.to_bits(), "text read back differs");
+                    }
+                    Err(_) => {
+                        if wellformed {
+                            assert!(unsafe { PARSER_CALLS } > 0, "well-formed text rejected without consulting the number parser");
+                            if let Some(x) = parsed {
+                                assert!(!(x >= $lo && x <= $hi), "text rejected in-range value");
+                            }
+                        }
+                    }
+                }
+                kani::cover!(r.is_ok(), "accept reachable");
+                kani::cover!(r.is_err() && wellformed, "range reject reachable");
+                kani::cover!(!wellformed, "malformed reachable");
+            }
+        };
+    }
+    mk18sym!(Gmt, -12.0, 12.0, c18_ts_gmt);
+    mk18sym!(Latitude, -90.0, 90.0, c18_ts_latitude);
+    mk18sym!(Longitude, -180.0, 180.0, c18_ts_longitude);
+    mk18sym!(Elevation, -420.0, 8848.0, c18_ts_elevation);
 }
